@@ -76,6 +76,7 @@ type OblReport struct {
 	ReplayNotes []string     `json:"replay_notes,omitempty"`
 	Results     []ResultTerm `json:"result_terms,omitempty"`
 	Synth       bool         `json:"synth,omitempty"`
+	Soft        bool         `json:"soft,omitempty"`
 }
 
 type ParamReport struct {
@@ -267,9 +268,9 @@ func main() {
 	}
 	results := Solve(obls, dir, *timeout, *all, *jobs)
 	for _, r := range results {
-		or := OblReport{Name: r.O.Name, Kind: r.O.Kind, Text: r.O.Text, Status: r.Status, Solver: r.Solver, Ms: r.Ms, Tried: r.Tried, Cover: r.O.IsCover, Fn: r.O.Fn, Synth: r.O.Synth}
+		or := OblReport{Name: r.O.Name, Kind: r.O.Kind, Text: r.O.Text, Status: r.Status, Solver: r.Solver, Ms: r.Ms, Tried: r.Tried, Cover: r.O.IsCover, Fn: r.O.Fn, Synth: r.O.Synth, Soft: r.O.Soft}
 		rep.SolverMs += r.Ms
-		bad := (!r.O.IsCover && r.Status != "unsat") || (r.O.IsCover && r.Status == "unsat") || r.Status == "error"
+		bad := (!r.O.IsCover && r.Status != "unsat") || (r.O.IsCover && !r.O.Soft && r.Status == "unsat") || (r.Status == "error" && !r.O.Soft)
 		if bad {
 			or.Model = r.Model
 			if len(r.Output) > 4000 {
